@@ -45,6 +45,7 @@ import (
 
 	"github.com/pkg/errors"
 	"github.com/tikv/client-go/v2/internal/logutil"
+	"github.com/tikv/client-go/v2/internal/simhook"
 	"github.com/tikv/client-go/v2/metrics"
 	"github.com/tikv/client-go/v2/oracle"
 	"github.com/tikv/client-go/v2/util"
@@ -298,6 +299,7 @@ func (o *pdOracle) setLastTS(ts uint64, txnScope string) {
 	}
 	lastTSPointer := lastTSInterface.(*atomic.Pointer[lastTSO])
 	for {
+		simhook.Yield("oracle.setLastTS.load")
 		last := lastTSPointer.Load()
 		if current.tso <= last.tso {
 			return
@@ -305,6 +307,7 @@ func (o *pdOracle) setLastTS(ts uint64, txnScope string) {
 		if last.arrival.After(current.arrival) {
 			current.arrival = last.arrival
 		}
+		simhook.Yield("oracle.setLastTS.cas")
 		if lastTSPointer.CompareAndSwap(last, current) {
 			return
 		}
@@ -651,6 +654,7 @@ func (o *pdOracle) getCurrentTSForValidation(ctx context.Context, opt *oracle.Op
 		// current ctx.
 		res, err := o.GetTimestamp(context.Background(), opt)
 		_, _ = util.EvalFailpoint("getCurrentTSForValidationBeforeReturn")
+		simhook.Yield("oracle.validation.ret")
 		return res, err
 	})
 	select {
